@@ -13,5 +13,4 @@ var Pending = map[string]string{
 	"C12": "check designed in DESIGN.md section 4 but not built yet in this round; not claimed until it exists",
 	"C13": "check designed in DESIGN.md section 4 but not built yet in this round; not claimed until it exists",
 	"C17": "check designed in DESIGN.md section 4 but not built yet in this round; not claimed until it exists",
-	"C20": "check designed in DESIGN.md section 4 but not built yet in this round; not claimed until it exists",
 }
